@@ -123,6 +123,7 @@ def bSp : UInt8 := 32
 namespace Lit
 def bom : Bytes := [0xEF, 0xBB, 0xBF]
 def xmlDecl : Bytes := [60, 63, 120, 109, 108, 32]            -- "<?xml "
+def xmlDeclOpen : Bytes := [60, 63, 120, 109, 108]            -- "<?xml"
 def doctype : Bytes := [60, 33, 68, 79, 67, 84, 89, 80, 69]   -- "<!DOCTYPE"
 def commentStart : Bytes := [60, 33, 45, 45]                  -- "<!--"
 def commentEnd : Bytes := [45, 45, 62]                        -- "-->"
@@ -183,6 +184,13 @@ def startsWithSpace (s : Stream) : Bool :=
   match s.rest with
   | [] => false
   | b :: _ => byteIsSpace T b
+
+/-- `starts_with_xml_decl` (D19 repair): `<?xml` followed by a white-space byte. -/
+def startsWithXmlDecl (s : Stream) : Bool :=
+  s.startsWith Lit.xmlDeclOpen &&
+    (match s.rest.drop 5 with
+     | b :: _ => byteIsSpace T b
+     | [] => false)
 
 /-- `consume_byte(c)` -/
 def consumeByte (s : Stream) (c : UInt8) : Res Stream :=
